@@ -26,6 +26,9 @@ QUICK = [
     ('monthly_grid', dict(T=4, freq=('MS', '2021-01-01', '2021-05-01', None), orders=((0, 2, 2.0), (1, 3, -1.5), (2, 4, 1.0))), 'A'),
     # order dates are instants: quoted in another zone / in the repeated hour at the end of daylight saving time
     ('orders_in_utc_on_cet_grid', dict(T=4, freq=('h', '2021-01-04 00:00', '2021-01-04 04:00', 'CET'), order_tz='UTC', orders=((0, 2, 2.0), (1, 4, -1.5), (2, 3, 1.0))), 'A'),
+    # orders that start / end inside a step: a step is delivered (and paid) iff its grid point lies in [start, end)
+    ('orders_start_and_end_inside_steps', dict(T=4, wacc=True, orders=((0.5, 3, 2.0), (1.25, 2.5, -1.5), (0, 1.5, 1.0))), 'A'),
+    ('orders_inside_steps_daily_grid', dict(T=3, freq='d', orders=((0.25, 2, 2.0), (1, 2.75, -1.5))), 'A'),
     # orders given as a DataFrame; a buy and a sell order with the same period and the very same price stay two orders
     ('dataframe_buy_and_sell_same_period_and_price', dict(T=3, as_frame=True, same_price=(0, 1), orders=((0, 2, 2.0), (0, 2, -1.5), (1, 3, 1.0))), 'A'),
     ('dataframe_full_exec', dict(T=3, as_frame=True, full_exec=True, orders=((0, 2, 2.0), (1, 3, -1.5))), 'A'),
